@@ -285,6 +285,17 @@ func (w *world) dataMut(m Mut) map[string][]byte {
 		st[name] = garbage(len(d)+m.Off, uint64(m.Off)+11)
 	case "dappend":
 		st[name] = append(append([]byte{}, d...), garbage(m.Off, uint64(m.Off)+13)...)
+	case "dmd5twin":
+		// a file that starts with one of the two published MD5-colliding blocks gets the other one (six bit flips)
+		if len(d) >= 128 {
+			c := append([]byte{}, d...)
+			if bytes.Equal(c[:128], scen.MD5CollisionA) {
+				copy(c, scen.MD5CollisionB)
+			} else if bytes.Equal(c[:128], scen.MD5CollisionB) {
+				copy(c, scen.MD5CollisionA)
+			}
+			st[name] = c
+		}
 	case "dswap":
 		// overwritten with another protected file's content: this file and the next one exchange their contents
 		other := w.names[(m.File+1)%len(w.names)]
@@ -650,6 +661,9 @@ func (w *world) enumerate(thorough bool) []Mut {
 		if len(w.names) > 1 {
 			ms = append(ms, Mut{Op: "dswap", File: fi}, Mut{Op: "dover", File: fi})
 		}
+		if o := w.orig[n]; len(o) >= 128 && (bytes.Equal(o[:128], scen.MD5CollisionA) || bytes.Equal(o[:128], scen.MD5CollisionB)) {
+			ms = append(ms, Mut{Op: "dmd5twin", File: fi})
+		}
 		for k := 0; k < 8 && k*S < L; k++ {
 			ms = append(ms, Mut{Op: "dslice", File: fi, Off: k})
 		}
@@ -693,7 +707,7 @@ func mutClass(w *world, m Mut) string {
 			return "flip-par1-header"
 		}
 		return "flip-par1-entry-or-data"
-	case "dtrunc", "dflip", "dgarbage", "dempty", "ddelete", "dgrow", "dappend", "dslice", "dswap", "dover":
+	case "dtrunc", "dflip", "dgarbage", "dempty", "ddelete", "dgrow", "dappend", "dslice", "dswap", "dover", "dmd5twin":
 		return "data-file-" + m.Op[1:]
 	case "zerohash":
 		return "control-hash-wiped"
@@ -791,6 +805,9 @@ func TestCheck(t *testing.T) {
 		{Format: "par1", N: 2, Files: []scen.FileSpec{{Name: "a.dat", Size: 16384 + 200, Kind: "random", Seed: 43}, {Name: "b.bin", Size: 50, Kind: "random", Seed: 44}}},
 		// a file whose odd slices are CRC-32 twins of the even ones (same CRC-32, different bytes)
 		{Format: "par2", Slice: 8, N: 2, Files: []scen.FileSpec{{Name: "tw.dat", Size: 64, Kind: "crctwin", Seed: 51}, {Name: "o.bin", Size: 20, Kind: "random", Seed: 52}}},
+		// two files with the same MD5 that differ in six bits (PAR2 only: PAR1 has nothing but MD5 to tell them apart)
+		{Format: "par2", Slice: 128, N: 2, Files: []scen.FileSpec{{Name: "a.bin", Size: 200, Kind: "md5a", Seed: 5}, {Name: "b.bin", Size: 200, Kind: "md5b", Seed: 5}}},
+		{Format: "par2", Slice: 64, N: 3, Files: []scen.FileSpec{{Name: "a.bin", Size: 333, Kind: "md5b", Seed: 8}, {Name: "z.bin", Size: 40, Kind: "random", Seed: 9}}},
 		// protected files of exactly the same length (whole slices, and with a short last slice)
 		{Format: "par2", Slice: 8, N: 2, Files: []scen.FileSpec{{Name: "p.bin", Size: 40, Kind: "random", Seed: 71}, {Name: "q.bin", Size: 40, Kind: "random", Seed: 72}, {Name: "r.bin", Size: 37, Kind: "random", Seed: 73}, {Name: "s.bin", Size: 37, Kind: "random", Seed: 74}}},
 		{Format: "par1", N: 2, Files: []scen.FileSpec{{Name: "p.bin", Size: 40, Kind: "random", Seed: 75}, {Name: "q.bin", Size: 40, Kind: "random", Seed: 76}}},
